@@ -45,6 +45,7 @@ Failed(t) ==
              [] c = "back_attr" -> B.parallel /\ \E i \in DOMAIN B.rows :
                                      LET p == UP(B.rows[i].a, B.rows[i].b) IN p \in gpairs /\ GAttr(p) # {Rec(B.rows[i])}}
     IN IF back # {} THEN back
+    ELSE IF t.held_el_after # t.held_el_before \/ t.held_g_after # t.held_g_before THEN {"earlier_result_changed_by_a_later_conversion"}
     ELSE IF t.raised_again # "" THEN {"raised_again"}
     ELSE IF Proj(G2) # Proj(G) THEN {"roundtrip"} ELSE {}
 
